@@ -78,6 +78,9 @@ func TestC19Rewards(t *testing.T) {
 		var belowCap bool
 		accrualJudged, payoutsJudged, x3Seen, absentSeen, dropSeen := 0, 0, 0, 0, 0
 		setUpdatesJudged, newcomers := 0, 0
+		// accrued reward every validator must hold when the next EndBlock starts (harness's own record)
+		var expectAccum map[types.Pubkey]*big.Int
+		restarts := 0
 
 		r.H.AfterBegin = func(req sim.BlockReq) {
 			present = map[types.TmAddress]bool{}
@@ -115,6 +118,13 @@ func TestC19Rewards(t *testing.T) {
 				}
 				vals = append(vals, cv)
 			}
+			if expectAccum != nil {
+				for _, v := range vals {
+					if want, ok := expectAccum[v.key]; ok && want.Cmp(v.accum) != 0 {
+						violation(t, "c19-accrued-differs-from-record", r, "block %d: validator %s enters EndBlock with an accrued reward of %s; after the previous block it was %s (restarts so far: %d)", hh, v.key.String()[:12], v.accum, want, restarts)
+					}
+				}
+			}
 		}
 		r.H.AfterEnd = func(hh uint64, resp abci.ResponseEndBlock) {
 			power := new(big.Int)
@@ -143,6 +153,10 @@ func TestC19Rewards(t *testing.T) {
 			after := map[types.Pubkey]*big.Int{}
 			for _, v := range n.App.VerifStateDeliver().Validators.GetValidators() {
 				after[v.PubKey] = v.GetAccumReward()
+			}
+			expectAccum = map[types.Pubkey]*big.Int{}
+			for k, v := range after {
+				expectAccum[k] = new(big.Int).Set(v)
 			}
 			if !payout && len(resp.ValidatorUpdates) == 0 {
 				accrualJudged++
@@ -265,11 +279,17 @@ func TestC19Rewards(t *testing.T) {
 
 		nb := rapid.IntRange(2, scale(16, 40)).Draw(t, "nBlocks")
 		for i := 0; i < nb && !r.Halted; i++ {
+			if i > 0 && sim.U(t, "restart", 5) == 0 {
+				n.Restart()
+				restarts++
+				r.Steps = append(r.Steps, "RESTART")
+			}
 			if !r.Block(t) {
 				violation(t, "panic", r, "%s", r.PanicReport())
 			}
 		}
 		h.flushExcluded()
+		sim.S.LabelN("C19/restarts", restarts)
 		sim.S.LabelN("C19/accrual-blocks-judged", accrualJudged)
 		sim.S.LabelN("C19/validator-payouts-judged", payoutsJudged)
 		sim.S.LabelN("C19/locked-stake-delegators-at-payout", x3Seen)
